@@ -11,11 +11,11 @@ func GeneratePropertyComparison(comparison profile.PropertyComparisonRule, iriEx
 	path := comparison.Path
 	altPath := comparison.Argument
 
-	rego = append(rego, "#  querying path: "+path.Source())
+	rego = append(rego, queryingPathComment(path.Source()))
 	pathResult := GeneratePropertySet(path, comparison.Variable.Name, iriExpander)
 	propVariable := fmt.Sprintf("%sA", pathResult.rule)
 	rego = append(rego, fmt.Sprintf("%ss = %s with data.sourceNode as %s", propVariable, pathResult.rule, comparison.Variable.Name))
-	rego = append(rego, "#  querying path: "+altPath.Source())
+	rego = append(rego, queryingPathComment(altPath.Source()))
 	altPathResult := GeneratePropertySet(altPath, comparison.Variable.Name, iriExpander)
 	altPropVariable := fmt.Sprintf("%sB", altPathResult.rule)
 	rego = append(rego, fmt.Sprintf("%ss = %s with data.sourceNode as %s", altPropVariable, altPathResult.rule, comparison.Variable.Name))
@@ -42,7 +42,7 @@ func GeneratePropertyComparison(comparison profile.PropertyComparisonRule, iriEx
 		Variable:   comparison.Variable.Name,
 		TraceNode:  comparison.Variable.Name,
 		TraceValue: BuildTraceValueNode(
-			fmt.Sprintf("\"negated\":%t, \"condition\":\"%s\",\"expected\":%s, \"actual\":%s, \"altPath\": \"%s\"", comparison.Negated, comparison.Operator.String(), altPropVariable, propVariable, altPath.Source())),
+			fmt.Sprintf("\"negated\":%t, \"condition\":\"%s\",\"expected\":%s, \"actual\":%s, \"altPath\": \"%s\"", comparison.Negated, comparison.Operator.String(), altPropVariable, propVariable, regoStringContent(altPath.Source()))),
 	}
 	return []SimpleRegoResult{r}
 }
